@@ -69,6 +69,15 @@ META = {
         "instance> (to examine the state handed to the kernel), "
         "kernel_kwargs={'no_warn': True} and, for the cut-short anneal, "
         "on_temperature_change=lambda *a: False (documented way to stop)",
+        "C kernel units: rig.place_and_route.place.sa.c_kernel.rig_c_sa and "
+        ".ffi are rebound to a contract model of the compiled library "
+        "(ModelSA): it stores exactly what CKernel hands over (per-vertex "
+        "resource vectors, movability, initial chips, nets, per-chip free "
+        "amounts by resource index) and every sa_run_steps call makes at "
+        "most one chosen move of a movable vertex to a chip on which it "
+        "fits ACCORDING TO THOSE FIGURES (at most two moves per anneal); "
+        "CKernel.__init__ and get_placements are rig's real code, "
+        "getrandbits() of the RNG stub returns 0 (the seed is ignored)",
     ],
     "assumptions": [
         "constraint sets are consistent (the menu above); every resource a "
@@ -90,7 +99,11 @@ META = {
         "is still fully covered through the symbolic random()",
     ],
     "outside_claim": [
-        "the C kernel (rig_c_sa, cffi) -- cannot be encoded",
+        "the compiled C kernel itself (rig_c_sa, cffi) -- cannot be encoded; "
+        "its Python wrapper CKernel is covered against a contract model of "
+        "the library (moves only where the marshalled figures say the "
+        "vertex fits); swaps and more than two moves per anneal are not "
+        "modelled",
         "the full annealing schedule with a symbolic RNG (floating-point "
         "temperature loop; unbounded number of steps): sa.place is claimed "
         "through constraint handling, _initial_placement, kernel "
@@ -246,6 +259,124 @@ class _det_merged(object):
         return False
 
 
+class _Bits(object):
+    """A random source that also answers getrandbits (the C kernel seeds the
+    library's generator with it; the contract model ignores the seed)."""
+
+    def __init__(self, inner):
+        self.inner = inner
+
+    def getrandbits(self, n):
+        return 0
+
+    def __getattr__(self, name):
+        return getattr(self.inner, name)
+
+
+# ----------------------------------------------------------------------
+# Contract model of the C annealing library (rig_c_sa)
+# ----------------------------------------------------------------------
+class _CObj(object):
+    pass
+
+
+class ModelFFI(object):
+    NULL = None
+
+    @staticmethod
+    def gc(obj, destructor):
+        return obj
+
+    @staticmethod
+    def new(ctype):
+        return [0]
+
+
+class ModelSA(object):
+    """Stands in for the compiled module rig_c_sa inside
+    rig.place_and_route.place.sa.c_kernel: the data structure CKernel fills
+    in, and a kernel that obeys the library's contract ON THAT DATA -- each
+    sa_run_steps call makes at most one arbitrary (chosen) move of a movable
+    vertex to a chip on which, according to the resource figures it was
+    given, the vertex fits.  The Python side (CKernel.__init__,
+    get_placements) is rig's real code; if it marshals the problem wrongly
+    the contract-abiding kernel returns a placement that is infeasible for
+    the real problem."""
+
+    def __init__(self, ctx):
+        self.ctx = ctx
+        self.ffi = ModelFFI
+        self.moves = 0
+
+    def srand(self, seed):
+        pass
+
+    def sa_new(self, width, height, nres, nv, nn):
+        s = _CObj()
+        s.width, s.height, s.nres = width, height, nres
+        s.vertices = [None] * nv
+        s.nets = [None] * nn
+        s.free = {}                 # chip -> [free amount per index]
+        s.has_wrap_around_links = False
+        s.num_movable_vertices = 0
+        return s
+
+    def sa_free(self, s):
+        pass
+
+    def sa_new_vertex(self, s, nnets):
+        v = _CObj()
+        v.vertex_resources = [0] * s.nres
+        v.x = v.y = None
+        v.movable = False
+        return v
+
+    def sa_add_vertex_to_chip(self, s, v, x, y, movable):
+        v.x, v.y, v.movable = x, y, bool(movable)
+
+    def sa_new_net(self, s, n):
+        net = _CObj()
+        net.weight = 0.0
+        net.vertices = []
+        return net
+
+    def sa_add_vertex_to_net(self, s, n, v):
+        n.vertices.append(v)
+
+    def sa_set_chip_resources(self, s, x, y, i, value):
+        s.free.setdefault((x, y), [0] * s.nres)[i] = value
+
+    def sa_get_total_cost(self, s):
+        return 1.0
+
+    def sa_run_steps(self, s, n, dlimit, temperature, pacc, pcd, pcsd):
+        pacc[0], pcd[0], pcsd[0] = 0, 0.0, 1.0
+        movable = [v for v in s.vertices if v is not None and v.movable]
+        chips = sorted(s.free)
+        if not movable or not chips or self.moves >= 2:
+            return
+        k = self.ctx.choose(1 + len(movable) * len(chips))
+        if k == 0:
+            return
+        v = movable[(k - 1) // len(chips)]
+        dst = chips[(k - 1) % len(chips)]
+        src = (v.x, v.y)
+        if dst == src:
+            return
+        fits = sand(*[v.vertex_resources[i] <= s.free[dst][i]
+                      for i in range(s.nres)])
+        if not fits:                # solver-decided branch
+            return
+        for i in range(s.nres):
+            s.free[dst][i] = s.free[dst][i] - v.vertex_resources[i]
+            if src in s.free:
+                s.free[src][i] = s.free[src][i] + v.vertex_resources[i]
+        v.x, v.y = dst
+        self.moves += 1
+        pacc[0] = 1
+        self.ctx.witness("c-kernel-moved")
+
+
 # ----------------------------------------------------------------------
 # Scenarios
 # ----------------------------------------------------------------------
@@ -254,7 +385,7 @@ class Scenario(object):
 
 
 def _build(ctx, dims, nv, nres, dead, exc, nets, cons, sparse, rev, nowrap,
-           unit_demands=False, hperm=False):
+           unit_demands=False, hperm=False, exc_rev=False):
     from rig.place_and_route import Machine, Cores, SDRAM
     from rig.place_and_route.constraints import (
         LocationConstraint, SameChipConstraint, ReserveResourceConstraint)
@@ -275,6 +406,10 @@ def _build(ctx, dims, nv, nres, dead, exc, nets, cons, sparse, rev, nowrap,
     if exc is not None:
         exceptions[tuple(exc)] = {r: ctx.int("capx%d" % j, 0)
                                   for j, r in enumerate(resources)}
+        if exc_rev:
+            # the caller wrote the exception's resources in another order
+            exceptions[tuple(exc)] = dict(reversed(list(
+                exceptions[tuple(exc)].items())))
     dead_links = set()
     if nowrap:
         # enough dead wrap-around links for has_wrap_around_links() == False
@@ -516,13 +651,14 @@ def _kernel_invariant(ctx, label, placements, l2v, machine, vr, live,
 def h_place(ctx, placer, dims=(2, 1), nv=2, nres=1, dead=None, exc=None,
             nets="none", cons=(), sparse=False, rev=False, nowrap=False,
             complete=False, rng="sym", mseed=0, order=None, effort=0.0,
-            bf=True, stop=True, hperm=False):
+            bf=True, stop=True, hperm=False, ck=False, exc_rev=False):
     from rig.place_and_route.exceptions import (
         InsufficientResourceError, InvalidConstraintError)
     import random as real_random
 
     sc = _build(ctx, tuple(dims), nv, nres, dead, exc, nets, tuple(cons),
-                sparse, rev, nowrap, unit_demands=complete, hperm=hperm)
+                sparse, rev, nowrap, unit_demands=complete, hperm=hperm,
+                exc_rev=exc_rev)
     mod = _mod("sa.algorithm" if placer == "sa" else placer)
     kwargs = {}
     spies = []
@@ -553,7 +689,20 @@ def h_place(ctx, placer, dims=(2, 1), nv=2, nres=1, dead=None, exc=None,
         kwargs["chip_order"] = chips
     if placer == "hilbert":
         kwargs["breadth_first"] = bf
-    if placer == "sa":
+    saved_c = None
+    if placer == "sa" and ck:
+        # the C kernel's Python side, against the contract model of the
+        # compiled library
+        ckm = _mod("sa.c_kernel")
+        model = ModelSA(ctx)
+        saved_c = (ckm, ckm.rig_c_sa, ckm.ffi)
+        ckm.rig_c_sa, ckm.ffi = model, ModelFFI
+        kwargs["kernel"] = ckm.CKernel
+        kwargs["effort"] = effort
+        kwargs["random"] = _Bits(kwargs.get("random"))
+        if stop and effort:
+            kwargs["on_temperature_change"] = lambda *a: False
+    elif placer == "sa":
         pk = _mod("sa.python_kernel")
 
         class SpyKernel(pk.PythonKernel):
@@ -610,6 +759,8 @@ def h_place(ctx, placer, dims=(2, 1), nv=2, nres=1, dead=None, exc=None,
     finally:
         if state is not None:
             real_random.setstate(state)
+        if saved_c is not None:
+            saved_c[0].rig_c_sa, saved_c[0].ffi = saved_c[1], saved_c[2]
 
     ctx.witness("placed")
     ctx.prove(not sc.expect_invalid, "location-on-unavailable-chip-accepted")
@@ -823,6 +974,18 @@ def units(tier, seed):
     add("sa", "anneal stopped, fixed + merged 2x1", dims=(2, 1), nv=3,
         nres=1, nets="chain", cons=("loc", "same12"), effort=0.1,
         nowrap=True, wit=KB, split=7)
+
+    # the C kernel's Python side (marshalling into / out of the library)
+    CK = ("placed", "c-kernel-moved")
+    add("sa", "C kernel 2x1 two resources, exception", dims=(2, 1), nv=3,
+        nres=2, exc=(1, 0), nets="chain", effort=0.1, nowrap=True, ck=True,
+        sparse=True, wit=CK, split=6)
+    add("sa", "C kernel 2x1 exception in another key order", dims=(2, 1),
+        nv=2, nres=2, exc=(1, 0), exc_rev=True, nets="chain", effort=0.1,
+        nowrap=True, ck=True, wit=CK, split=6)
+    add("sa", "C kernel 2x2 dead, fixed, merged, reserved", dims=(2, 2),
+        nv=3, nres=1, dead=(1, 1), nets="fan", cons=("loc", "same12", "resg"),
+        effort=0.1, ck=True, wit=CK, split=7)
 
     # the annealer: inductive step
     ALL = ("accepted", "not-accepted", "moved", "reverted")
